@@ -729,6 +729,17 @@ func runC27(c c27Case) (out lib.Outcome) {
 	login := len(locs) == 1 && strings.HasPrefix(locs[0], authEndpoint+"?")
 	if !login {
 		kind := checkLocation(where1, r1.Header, authCookie)
+		if loc := r1.Header.Get("Location"); loc != "" {
+			okRT := false
+			for _, rt := range c.ReturnTo {
+				if rt != "" && strings.HasPrefix(loc, rt) && c27Classify(rt, "\x00none", c.Allow) == "external-ok" {
+					okRT = true
+				}
+			}
+			if !okRT {
+				out.Violate("C27/early-redirect-target-not-requested", "%s: redirected to %q, which is not an allowlisted `_vgi_return_to` value this request supplied", where1, lib.Short(loc, 160))
+			}
+		}
 		switch {
 		case kind != "":
 			out.Label("page:early-redirect")
@@ -758,54 +769,65 @@ func runC27(c c27Case) (out lib.Outcome) {
 		out.Violate("C27/login-redirect-incomplete", "%s: login redirect lacks state / S256 challenge / session cookie: %s", where1, lib.Short(locs[0], 300))
 		return
 	}
+	// Layout knowledge is used only to REACH states (targeted bit flips, the
+	// harness's own packer); nothing below judges through it. If the issued
+	// cookie does not read as the pinned v4 layout the flow is still completed
+	// and judged on behaviour.
 	packed, raw, offs, ust, trailing := c27Unpack(issued, sessKey)
-	switch ust {
-	case "unreadable":
-		out.Skipped = true
-		out.Label("format-drift:server-cookie-unreadable")
-		return
-	case "truncated":
-		out.Violate("C27/cookie-layout-truncated", "%s: the issued session cookie (%d bytes, MAC valid under the derived key, version 4) has a length prefix that runs past its payload: it does not encode what the server packed",
-			where1, len(raw))
-		return
-	case "trailing":
-		out.Violate("C27/cookie-layout-trailing-bytes", "%s: the issued session cookie (%d bytes, MAC valid, version 4) has %d bytes left over after its four length-prefixed fields (request path+query was %d bytes; unpacked original_url %d bytes, return_to %d bytes %q): the recorded lengths do not describe what the server packed",
-			where1, len(raw), trailing, len(target), len(packed.OriginalURL), len(packed.Ret), lib.Short(packed.Ret, 60))
+	if ust != "ok" {
+		out.Label("cookie-layout-unrecognised")
+		out.Label("cookie-layout-unrecognised:" + ust)
 	}
-	// the fields are what a correct server packs for this request: return_to
-	// only ever a value the request supplied, original_url the request's own
-	// path+query (bounded to 2048 bytes by cutting) or the prefix root
-	if packed.Ret != "" {
-		given := false
-		for _, rt := range c.ReturnTo {
-			given = given || rt == packed.Ret
-		}
-		if !given {
-			out.Violate("C27/cookie-return-to-not-requested", "%s: the issued cookie unpacks to return_to %q (%d bytes) although the request supplied %d _vgi_return_to value(s), none equal to it",
-				where1, lib.Short(packed.Ret, 80), len(packed.Ret), len(c.ReturnTo))
-		}
+	if raw == nil {
+		raw, _ = c27DecodeText(issued)
 	}
 	root := c.Prefix
 	if root == "" {
 		root = "/"
 	}
-	switch ou := packed.OriginalURL; {
-	case ou == target, ou == root:
-	case len(target) > 2048 && len(ou) <= 2048 && strings.HasPrefix(target, ou) && strings.HasPrefix(ou, path):
-	default:
-		out.Violate("C27/cookie-original-url-not-the-request", "%s: the issued cookie unpacks to original_url %q (%d bytes), which is neither the request's path+query (%d bytes), a cut of it to <= 2048 bytes, nor the prefix root",
-			where1, lib.Short(ou, 80), len(ou), len(target))
+	// requestedTarget: where may a completed login send the browser, given
+	// what THIS request asked for?  "original": the request's own path+query
+	// as the server is documented to keep it — itself, the prefix root, or a
+	// cut of it to at most 2048 bytes (the documented hard cut, give or take a
+	// split %XX escape, or a cut at a parameter boundary); "return_to": a
+	// `_vgi_return_to` value this request supplied and that matches the
+	// allowlist, followed by the fragment the server appends; "" otherwise.
+	requestedTarget := func(loc string) string {
+		if loc == target || loc == root {
+			return "original"
+		}
+		if len(target) > 2048 && len(loc) <= 2048 && len(loc) >= len(path) && strings.HasPrefix(target, loc) {
+			if len(loc) >= 2046 || target[len(loc)] == '&' || target[len(loc)] == '?' {
+				return "original"
+			}
+		}
+		for _, rt := range c.ReturnTo {
+			if rt != "" && strings.HasPrefix(loc, rt) && len(loc) > len(rt) && (loc[len(rt)] == '#' || loc[len(rt)] == '&') &&
+				c27Classify(rt, "\x00none", c.Allow) == "external-ok" {
+				return "return_to"
+			}
+		}
+		return ""
 	}
-	// the cookie carries what the redirect promised
-	cs := sha256.Sum256([]byte(packed.Verifier))
-	if base64.RawURLEncoding.EncodeToString(cs[:]) != challenge {
-		out.Violate("C27/cookie-verifier-challenge-mismatch", "%s: S256 of the packed verifier is not the code_challenge of the redirect", where1)
-	}
-	if packed.State != issuedState {
-		out.Violate("C27/cookie-state-mismatch", "%s: packed state %q differs from the redirect's state %q", where1, packed.State, issuedState)
-	}
-	if k := c27Classify(packed.OriginalURL, c.Prefix, nil); k != "relative-ok" {
-		out.Label("packed-original-url:" + k)
+	judgeTarget := func(where string, h http.Header) string {
+		loc := h.Get("Location")
+		if loc == "" {
+			return ""
+		}
+		rk := requestedTarget(loc)
+		if rk == "" {
+			out.Violate("C27/callback-target-not-what-was-requested", "%s: the login completed with a redirect to %q (%d bytes), which is neither the request's own path+query (%d bytes: %q), its cut to <= 2048 bytes, the prefix root %q, nor an allowlisted `_vgi_return_to` value this request supplied (%d supplied)",
+				where, lib.Short(loc, 120), len(loc), len(target), lib.Short(target, 60), root, len(c.ReturnTo))
+		}
+		if rk != "return_to" {
+			for _, sec := range secrets {
+				if sec != "" && strings.Contains(loc, sec) {
+					out.Violate("C27/token-in-redirect-not-requested-return-url", "%s: a bearer/refresh token is placed in the redirect %q, which is not a return URL this request supplied", where, lib.Short(loc, 120))
+					break
+				}
+			}
+		}
+		return rk
 	}
 
 	// ---- 2. callback ----
@@ -814,24 +836,35 @@ func runC27(c c27Case) (out lib.Outcome) {
 	startCase := now
 
 	cookieOK := "yes" // yes | no | either
+	usedMine := false
 	cookieVal := issued
 	present := true
 	switch c.Cookie {
 	case "as-issued":
 	case "bitflip":
-		region := c.CookieArg % len(offs)
-		lo := offs[region]
-		hi := len(raw)
-		if region+1 < len(offs) {
-			hi = offs[region+1]
+		region, pos := 0, 0
+		if len(offs) > 0 {
+			region = c.CookieArg % len(offs)
+			lo := offs[region]
+			hi := len(raw)
+			if region+1 < len(offs) {
+				hi = offs[region+1]
+			}
+			pos = lo + (c.CookieArg/7)%(hi-lo)
+		} else if len(raw) > 0 {
+			pos = c.CookieArg % len(raw)
+		} else {
+			break // not even base64: present as issued
 		}
-		pos := lo + (c.CookieArg/7)%(hi-lo)
 		mod := append([]byte{}, raw...)
 		mod[pos] ^= 1 << (c.CookieArg % 8)
 		cookieVal = base64.URLEncoding.EncodeToString(mod)
 		cookieOK = "no"
 		out.Label(fmt.Sprintf("cookie:bitflip-region-%d", region))
 	case "truncate-raw":
+		if len(raw) < 2 {
+			break
+		}
 		n := 1 + c.CookieArg%40
 		if n >= len(raw) {
 			n = len(raw) - 1
@@ -850,10 +883,16 @@ func runC27(c c27Case) (out lib.Outcome) {
 			cookieOK = "no"
 		}
 	case "otherkey":
+		if len(raw) < 33 {
+			break
+		}
 		other := sha256.Sum256([]byte("c27-key-" + c.Salt + "-other"))
 		cookieVal = c27Sign(raw[:len(raw)-32], c27SessionKey(other[:]))
 		cookieOK = "no"
 	case "rawkey":
+		if len(raw) < 33 {
+			break
+		}
 		cookieVal = c27Sign(raw[:len(raw)-32], signing) // signed with the signing key itself, not the derived one
 		cookieOK = "no"
 	case "nopad":
@@ -869,22 +908,33 @@ func runC27(c c27Case) (out lib.Outcome) {
 		cookieVal = base64.URLEncoding.EncodeToString(append(g[:], g[:]...))[:20+c.CookieArg%60]
 		cookieOK = "no"
 	case "mine":
+		if ust != "ok" && ust != "trailing" {
+			out.Label("format-drift:own-packer-not-applicable")
+			break // present as issued
+		}
+		usedMine = true
+		// bytes the pinned layout does not know are carried over verbatim
+		var tail []byte
+		if trailing > 0 {
+			tail = raw[len(raw)-32-trailing : len(raw)-32]
+		}
 		// validate the packer first with a fresh cookie on a separate code
 		ctl := packed
 		ctl.Created = now.Unix() - 1
 		ctlCode := code + "-ctl"
 		idp.register(ctlCode, c27TokenResp{Access: access, ID: idTok, Refresh: refresh})
-		rc := lib.DoHTTP(hs, "GET", c.Prefix+"/_oauth/callback?code="+ctlCode+"&state="+url.QueryEscape(packed.State),
-			map[string]string{"Cookie": "_vgi_oauth_session=" + c27Sign(c27PackPayload(ctl), sessKey)}, nil)
+		rc := lib.DoHTTP(hs, "GET", c.Prefix+"/_oauth/callback?code="+ctlCode+"&state="+url.QueryEscape(issuedState),
+			map[string]string{"Cookie": "_vgi_oauth_session=" + c27Sign(append(c27PackPayload(ctl), tail...), sessKey)}, nil)
 		if len(idp.take(ctlCode)) != 1 {
 			out.Skipped = true
 			out.Label("format-drift:own-cookie-refused")
 			return
 		}
 		checkLocation("control callback with the harness's own fresh cookie", rc.Header)
+		judgeTarget("control callback with the harness's own fresh cookie", rc.Header)
 		mine := packed
 		mine.Created = now.Unix() + c.CreatedOff
-		cookieVal = c27Sign(c27PackPayload(mine), sessKey)
+		cookieVal = c27Sign(append(c27PackPayload(mine), tail...), sessKey)
 		switch {
 		case c.CreatedOff < -600:
 			cookieOK = "no"
@@ -899,7 +949,7 @@ func runC27(c c27Case) (out lib.Outcome) {
 	}
 	out.Label("cookie:" + c.Cookie)
 
-	sent := packed.State
+	sent := issuedState
 	stateOK := true
 	const b64 = "ABCDEFGHIJKLMNOPQRSTUVWXYZabcdefghijklmnopqrstuvwxyz0123456789-_"
 	switch c.State {
@@ -926,7 +976,7 @@ func runC27(c c27Case) (out lib.Outcome) {
 		}
 		sent = sw
 	}
-	stateOK = sent == packed.State
+	stateOK = sent == issuedState
 	out.Label("state:" + c.State)
 
 	idp.register(code, c27TokenResp{Access: access, ID: idTok, Refresh: refresh})
@@ -958,7 +1008,7 @@ func runC27(c c27Case) (out lib.Outcome) {
 	if stateOK && !c.CodeEmpty {
 		expect = cookieOK
 	}
-	if c.Cookie == "mine" && elapsed > time.Second {
+	if usedMine && elapsed > time.Second {
 		expect = "either" // the wall clock moved too far for the age edges to be decided
 	}
 	if len(calls) > 1 {
@@ -973,10 +1023,10 @@ func runC27(c c27Case) (out lib.Outcome) {
 				reason = "code-empty"
 			}
 		}
-		if c.Cookie == "mine" {
+		if usedMine && cookieOK == "no" {
 			reason = "cookie-expired"
 		}
-		out.Violate(lib.Keyf("C27", "exchanged", reason), "%s: the code was exchanged at the token endpoint although the cookie/state must be refused (sent state %q, packed %q)", where2, sent, packed.State)
+		out.Violate(lib.Keyf("C27", "exchanged", reason), "%s: the code was exchanged at the token endpoint although the cookie/state must be refused (sent state %q, issued %q)", where2, sent, issuedState)
 	case expect == "yes" && len(calls) == 0:
 		out.Violate(lib.Keyf("C27", "not-exchanged", c.Cookie), "%s: authentic fresh cookie and equal state, but the token endpoint was not called; body: %s", where2, lib.Short(string(r2.Body), 200))
 	}
@@ -985,7 +1035,7 @@ func runC27(c c27Case) (out lib.Outcome) {
 		form := calls[0]
 		v := form.Get("code_verifier")
 		vs := sha256.Sum256([]byte(v))
-		if v != packed.Verifier || base64.RawURLEncoding.EncodeToString(vs[:]) != challenge {
+		if base64.RawURLEncoding.EncodeToString(vs[:]) != challenge {
 			out.Violate("C27/verifier-not-the-packed-one", "%s: token request carried verifier %q; S256 does not equal the redirect's code_challenge %q", where2, lib.Short(v, 80), challenge)
 		}
 		if form.Get("code") != code {
@@ -1000,32 +1050,31 @@ func runC27(c c27Case) (out lib.Outcome) {
 		out.Label("callback:refused-with-redirect")
 	}
 	if len(calls) == 1 && stateOK && cookieOK != "no" {
-		// round trip: the redirect goes where the packed fields say
+		// the cookie round-trips what the server packed: the completed login
+		// sends the browser where this request asked to go
 		loc := r2.Header.Get("Location")
-		switch {
-		case r2.Status != http.StatusFound || loc == "":
+		if r2.Status != http.StatusFound || loc == "" {
 			out.Violate("C27/success-without-redirect", "%s: exchange succeeded but no 302 redirect followed", where2)
-		case packed.Ret != "":
-			out.Label("callback:external-redirect")
-			if !strings.HasPrefix(loc, packed.Ret) {
-				out.Violate("C27/redirect-not-packed-return-to", "%s: Location %q does not start with the packed return_to %q", where2, lib.Short(loc, 200), lib.Short(packed.Ret, 200))
-			}
-			if !strings.Contains(loc, bearer) {
-				out.Violate("C27/external-redirect-without-token", "%s: Location %q lacks the bearer token", where2, lib.Short(loc, 200))
-			}
-		default:
-			out.Label("callback:same-origin-redirect")
-			if loc != packed.OriginalURL {
-				out.Violate("C27/redirect-not-packed-original-url", "%s: Location %q differs from the packed original URL %q", where2, lib.Short(loc, 200), lib.Short(packed.OriginalURL, 200))
+		} else {
+			switch judgeTarget(where2+" after "+where1, r2.Header) {
+			case "return_to":
+				out.Label("callback:external-redirect")
+				if !strings.Contains(loc, bearer) {
+					out.Violate("C27/external-redirect-without-token", "%s: Location %q lacks the bearer token", where2, lib.Short(loc, 200))
+				}
+			case "original":
+				out.Label("callback:same-origin-redirect")
 			}
 		}
+	} else if r2.Header.Get("Location") != "" {
+		judgeTarget(where2+" after "+where1, r2.Header)
 	}
 	return
 }
 
 var propC27 = lib.Prop[c27Case]{
 	ID: "C27",
-	Rule: "black-box PKCE flow against a fake IdP on a loopback listener: prefix ''|/vgi|/a/b, 0-3 allowlist entries (with/without port) + the documented default + http localhost, landing/describe page request with an arbitrary query and 0-2 `_vgi_return_to` values (10 honest shapes; ~95 adversarial shapes: suffix/userinfo/percent/backslash/fragment confusions, scheme-relative and slash-count variants, other schemes, port and case mismatches, TAB/CR/LF/NUL, localhost look-alikes, IPv6, IDN homographs, 2048/2049/5000-byte values, random strings), optional _vgi_auth cookie (good/junk/expired JWT/live JWT); 1 case in 6 is of the oversize class instead: a browser GET whose path+query is one '&'-free parameter of m*65536+k bytes (m 1-4; k small, large or uniform), the same with a crafted record at offset len mod 65536 (two printable bytes read as a little-endian uint16 length + that many bytes of an attacker or allowlisted URL), single parameters of 1500-65535 bytes, and multi-parameter URLs of 5 KB-200 KB as controls; the issued cookie must unpack (own v4 reader) with no bytes left over, to a return_to the request supplied and to the request's own path+query (or a <=2048-byte cut of it, or the prefix root); then the callback with state in {correct, one byte changed, empty, prefix, extended, other, case-swapped} and cookie in {as issued, bit flipped in each region (version, created, 4 fields, MAC), truncated bytes/text, signed with another key or the underived key, unpadded, absent, garbage, minted by the harness's own v4 packer with created_at offsets -1700000000..+601 s (packer validated first against the server)}. " +
+	Rule: "black-box PKCE flow against a fake IdP on a loopback listener: prefix ''|/vgi|/a/b, 0-3 allowlist entries (with/without port) + the documented default + http localhost, landing/describe page request with an arbitrary query and 0-2 `_vgi_return_to` values (10 honest shapes; ~95 adversarial shapes: suffix/userinfo/percent/backslash/fragment confusions, scheme-relative and slash-count variants, other schemes, port and case mismatches, TAB/CR/LF/NUL, localhost look-alikes, IPv6, IDN homographs, 2048/2049/5000-byte values, random strings), optional _vgi_auth cookie (good/junk/expired JWT/live JWT); 1 case in 6 is of the oversize class instead: a browser GET whose path+query is one '&'-free parameter of m*65536+k bytes (m 1-4; k small, large or uniform), the same with a crafted record at offset len mod 65536 (two printable bytes read as a little-endian uint16 length + that many bytes of an attacker or allowlisted URL), single parameters of 1500-65535 bytes, and multi-parameter URLs of 5 KB-200 KB as controls; every login redirect is completed against the fake IdP and judged on behaviour: the final Location must be the request's own path+query (or its cut to <=2048 bytes, or the prefix root) or an allowlisted `_vgi_return_to` value this very request supplied, and tokens only in the latter; then the callback with state in {correct, one byte changed, empty, prefix, extended, other, case-swapped} and cookie in {as issued, bit flipped in each region (version, created, 4 fields, MAC), truncated bytes/text, signed with another key or the underived key, unpadded, absent, garbage, minted by the harness's own v4 packer with created_at offsets -1700000000..+601 s (packer validated first against the server)}. " +
 		"Non-trivial: `_vgi_return_to` present and adversarial, or a mutated cookie/state.",
 	Gen:          genC27,
 	Run:          runC27,
@@ -1033,7 +1082,8 @@ var propC27 = lib.Prop[c27Case]{
 		"oversize:single-param-over-64k", "oversize:crafted-length-record", "oversize:multi-param-over-64k", "oversize:over-2048"},
 	EssentialMin: 400,
 	Assumptions: []string{
-		"cookie and key formats are pinned from the doc comments of oauth_pkce_cookie.go / oauth_pkce_crypto.go (v4 layout; session key = HMAC-SHA256(signing key, \"oauth-pkce-session\")); if the server's cookie cannot be read or the harness's own fresh cookie is refused the case is counted as format drift and skipped",
+		"the cookie layout and key derivation pinned from the doc comments of oauth_pkce_cookie.go / oauth_pkce_crypto.go are used only to reach states (targeted bit flips, re-signing, the harness's own packer with chosen created_at) and never to judge: a cookie the harness cannot read is labelled cookie-layout-unrecognised and the flow is still completed and judged on its redirects; the own-packer cases run only after a fresh harness cookie was accepted by the server (otherwise counted as format drift)",
+		"'documented cut' of an over-long original URL: any prefix of the request's path+query of 2046-2048 bytes, or a shorter one ending at a parameter boundary ('?' or '&'), or the prefix root",
 		"a cookie is 'altered' only if its decoded bytes differ (unpadded re-encoding may be accepted); created_at in (now-601, now-598) or in the future is not judged",
 		"Location values are read the way a browser reads them (TAB/CR/LF stripped, '\\' as '/', any number of slashes after http(s):, userinfo up to the last '@'), host compared case-insensitively, default ports equal to explicit ones",
 	},
